@@ -70,43 +70,198 @@ def _without_returns(stmts):
     return out, True
 
 
-def inline_guard_helpers(tree):
-    """In every class of the module: a statement `self.m(args)` whose method m is guard-like is replaced by m's body
-    (parameters substituted, returns eliminated).  The rules then see `if not isinstance(...): raise` where the source says
-    `self._check_type(msg)`: a guard moved into a helper stays the same guard."""
-    for cls in [n for n in ast.walk(tree) if isinstance(n, ast.ClassDef)]:
-        helpers = {m.name: m for m in cls.body if isinstance(m, FUNCS) and _guard_like(m)}
-        if not helpers:
-            continue
-        for m in [x for x in cls.body if isinstance(x, FUNCS) and x.name not in helpers]:
-            def rewrite(stmts):
-                res = []
-                for st in stmts:
-                    for fld in ("body", "orelse", "finalbody"):
-                        if isinstance(getattr(st, fld, None), list) and not isinstance(st, FUNCS + (ast.ClassDef,)):
-                            setattr(st, fld, rewrite(getattr(st, fld)))
-                    c = st.value if isinstance(st, ast.Expr) else None
-                    if isinstance(c, ast.Call) and isinstance(c.func, ast.Attribute) and isinstance(c.func.value, ast.Name) and c.func.value.id == "self" \
-                            and c.func.attr in helpers and not c.keywords and not any(isinstance(a, ast.Starred) for a in c.args):
-                        h = helpers[c.func.attr]
-                        ps = [a.arg for a in h.args.args][1:]
-                        if len(ps) == len(c.args):
-                            sub = dict(zip(ps, c.args))
+def _clone_expr(e):
+    return ast.parse(ast.unparse(e), mode="eval").body
 
-                            class S(ast.NodeTransformer):
-                                def visit_Name(self, n):
-                                    return copy.deepcopy(sub[n.id]) if n.id in sub and isinstance(n.ctx, ast.Load) else n
-                            body, _ = _without_returns(copy.deepcopy(h.body))
-                            body = [S().visit(b) for b in body]
-                            for b in body:
-                                for x in ast.walk(b):
-                                    ast.copy_location(x, st)
-                                ast.fix_missing_locations(b)
-                            res.extend(body or [ast.Pass(lineno=st.lineno, col_offset=st.col_offset)])
-                            continue
-                    res.append(st)
-                return res
-            m.body = rewrite(m.body)
+
+def _clone_stmts(stmts):
+    return ast.parse("\n".join(ast.unparse(x) for x in stmts)).body if stmts else []
+
+
+def _relocate(nodes, at):
+    for b in nodes:
+        for x in ast.walk(b):
+            ast.copy_location(x, at)
+            if hasattr(x, "end_lineno"):
+                x.end_lineno = getattr(at, "end_lineno", getattr(at, "lineno", None))
+        ast.fix_missing_locations(b)
+
+
+def _body_sans_doc(m):
+    return [b for b in m.body if not (isinstance(b, ast.Expr) and isinstance(b.value, ast.Constant))]
+
+
+def _simple_sig(m):
+    return not m.decorator_list and not m.args.vararg and not m.args.kwarg and not m.args.kwonlyargs and not m.args.defaults \
+        and not any(isinstance(x, (ast.Yield, ast.YieldFrom, ast.Await, ast.Global, ast.Nonlocal)) for x in ast.walk(m))
+
+
+def _procedure_like(m):
+    """No value is returned and nothing but straight-line code, ifs and loops: a call statement can be replaced by the body."""
+    for x in ast.walk(m):
+        if isinstance(x, ast.Return) and x.value is not None and not (isinstance(x.value, ast.Constant) and x.value.value is None):
+            return False
+        if isinstance(x, FUNCS + (ast.ClassDef, ast.Try, ast.With)) and x is not m:
+            return False
+        if isinstance(x, ast.Call) and isinstance(x.func, ast.Attribute) and isinstance(x.func.value, ast.Name) and x.func.value.id == "self" and x.func.attr == m.name:
+            return False
+    # a `return` inside a loop cannot be eliminated by nesting
+    for lp in [x for x in ast.walk(m) if isinstance(x, (ast.For, ast.While))]:
+        if any(isinstance(y, ast.Return) for y in ast.walk(lp)):
+            return False
+    return True
+
+
+def _subst_params(nodes, sub):
+    """Parameters replaced by the call's arguments.  A lambda in the helper body captures the helper's PARAMETER, which is
+    bound when the helper is called; inlined, it must not start reading the caller's variable late: the captured
+    parameters become defaults of the lambda (`lambda msg: f(topic, msg)` -> `lambda msg, topic=<argument>: f(topic, msg)`)."""
+    class S(ast.NodeTransformer):
+        def __init__(self, shadow=frozenset()):
+            self.shadow = shadow
+
+        def visit_Name(self, n):
+            return _clone_expr(sub[n.id]) if n.id in sub and n.id not in self.shadow and isinstance(n.ctx, ast.Load) else n
+
+        def visit_Lambda(self, L):
+            own = {a.arg for a in L.args.args + L.args.kwonlyargs + getattr(L.args, "posonlyargs", [])}
+            used = [x for x in dict.fromkeys(n.id for n in ast.walk(L.body) if isinstance(n, ast.Name) and isinstance(n.ctx, ast.Load)) if x in sub and x not in own and x not in self.shadow]
+            for d_ in L.args.defaults:
+                self.visit(d_)
+            for p_ in used:
+                L.args.args.append(ast.arg(arg=p_))
+                L.args.defaults.append(_clone_expr(sub[p_]))
+            L.body = S(self.shadow | own | set(used)).visit(L.body)
+            return L
+    return [S().visit(b) for b in nodes]
+
+
+def _access_path(e):
+    """self.a.b, param.name, self.x.data['k'], core._registry[topic] ... -> root Name, or None if e is not such a path."""
+    while True:
+        if isinstance(e, ast.Attribute):
+            e = e.value
+        elif isinstance(e, ast.Subscript) and isinstance(e.slice, (ast.Constant, ast.Name)):
+            e = e.value
+        elif isinstance(e, ast.Name):
+            return e.id
+        else:
+            return None
+
+
+def copy_propagate(fn):
+    """A local bound once to an access path that nothing in the function re-binds (`declared = self._declared_params`,
+    `name = param.name`, `latest = self.data_latest.data`) is replaced by that path in the statements after it: a store
+    through the alias is a store into the object, and the rules see it as such."""
+    params = {a.arg for a in fn.args.args + fn.args.kwonlyargs + getattr(fn.args, "posonlyargs", [])}
+    stores = {}
+    for x in ast.walk(fn):
+        tgts = []
+        if isinstance(x, ast.Assign):
+            tgts = x.targets
+        elif isinstance(x, (ast.AugAssign, ast.AnnAssign)):
+            tgts = [x.target]
+        elif isinstance(x, (ast.For, ast.comprehension)):
+            tgts = [x.target]
+        elif isinstance(x, ast.Delete):
+            tgts = x.targets
+        elif isinstance(x, ast.withitem) and x.optional_vars is not None:
+            tgts = [x.optional_vars]
+        elif isinstance(x, ast.NamedExpr):
+            tgts = [x.target]
+        for t in tgts:
+            for y in ([t] if not isinstance(t, (ast.Tuple, ast.List)) else list(ast.walk(t))):
+                if isinstance(y, (ast.Name, ast.Attribute, ast.Subscript)):
+                    stores.setdefault(unp(y), []).append(x)
+    cands = {}
+    for st in fn.body:
+        if isinstance(st, ast.Assign) and len(st.targets) == 1 and isinstance(st.targets[0], ast.Name):
+            nm, v = st.targets[0].id, st.value
+            root = _access_path(v)
+            if root is None or isinstance(v, ast.Name) or nm in params or len(stores.get(nm, [])) != 1:
+                continue
+            if root != "self" and root not in params:
+                continue
+            # no prefix of the path is re-bound anywhere in the function (element stores below it are fine)
+            prefixes, e = [], v
+            while not isinstance(e, ast.Name):
+                prefixes.append(unp(e))
+                e = e.value
+            prefixes.append(e.id)
+            if any(pfx in stores for pfx in prefixes):
+                continue
+            if isinstance(v, ast.Subscript) and isinstance(v.slice, ast.Name) and v.slice.id in stores:
+                continue
+            cands[nm] = (st, v)
+    if not cands:
+        return
+
+    class P(ast.NodeTransformer):
+        def visit_Name(self, n):
+            if isinstance(n.ctx, ast.Load) and n.id in cands and n.lineno > cands[n.id][0].lineno:
+                r = _clone_expr(cands[n.id][1])
+                _relocate([r], n)
+                return r
+            return n
+    for i, st in enumerate(fn.body):
+        fn.body[i] = P().visit(st)
+
+
+def normalise_helpers(tree):
+    """Source normalisation ahead of the flow rules, per class:
+    (1) `self.m(args)` anywhere, m a method whose body is a single `return <expr>`: replaced by that expression;
+    (2) a statement `self.m(args)`, m guard-like (only tests, raise, return None) or a private procedure (`_name`, no value
+        returned): replaced by m's body, returns eliminated by nesting, parameters substituted;
+    (3) locals bound once to an access path are replaced by the path (copy_propagate).
+    A guard, a gate, a publication or a registry store moved into a helper, or reached through a local alias, is then the
+    same guard / gate / publication / store for every rule."""
+    for cls in [n for n in ast.walk(tree) if isinstance(n, ast.ClassDef)]:
+        meths = {m.name: m for m in cls.body if isinstance(m, FUNCS)}
+        expr_h = {n: m for n, m in meths.items() if _simple_sig(m) and len(_body_sans_doc(m)) == 1 and isinstance(_body_sans_doc(m)[0], ast.Return)
+                  and _body_sans_doc(m)[0].value is not None and not n.startswith("__")}
+        proc_h = {n: m for n, m in meths.items() if _simple_sig(m) and n not in expr_h and not n.startswith("__")
+                  and (_guard_like(m) or (n.startswith("_") and _procedure_like(m)))}
+        for _pass in range(2):
+            for m in [x for x in cls.body if isinstance(x, FUNCS)]:
+                class E(ast.NodeTransformer):
+                    def visit_Call(self, c):
+                        self.generic_visit(c)
+                        f = c.func
+                        if isinstance(f, ast.Attribute) and isinstance(f.value, ast.Name) and f.value.id == "self" and f.attr in expr_h and f.attr != m.name \
+                                and not c.keywords and not any(isinstance(a, ast.Starred) for a in c.args):
+                            h = expr_h[f.attr]
+                            ps = [a.arg for a in h.args.args][1:]
+                            if len(ps) == len(c.args):
+                                out = _subst_params([_clone_expr(_body_sans_doc(h)[0].value)], dict(zip(ps, c.args)))[0]
+                                _relocate([out], c)
+                                return out
+                        return c
+
+                def rewrite(stmts):
+                    res = []
+                    for st in stmts:
+                        for fld in ("body", "orelse", "finalbody"):
+                            if isinstance(getattr(st, fld, None), list) and not isinstance(st, FUNCS + (ast.ClassDef,)):
+                                setattr(st, fld, rewrite(getattr(st, fld)))
+                        c = st.value if isinstance(st, ast.Expr) else None
+                        if isinstance(c, ast.Call) and isinstance(c.func, ast.Attribute) and isinstance(c.func.value, ast.Name) and c.func.value.id == "self" \
+                                and c.func.attr in proc_h and c.func.attr != m.name and not c.keywords and not any(isinstance(a, ast.Starred) for a in c.args):
+                            h = proc_h[c.func.attr]
+                            ps = [a.arg for a in h.args.args][1:]
+                            if len(ps) == len(c.args):
+                                body, _ = _without_returns(_clone_stmts(_body_sans_doc(h)))
+                                body = _subst_params(body, dict(zip(ps, c.args)))
+                                _relocate(body, st)
+                                res.extend(body or [ast.Pass(lineno=st.lineno, col_offset=st.col_offset)])
+                                continue
+                        res.append(st)
+                    return res
+                m.body = rewrite([E().visit(st) for st in m.body])
+        for m in [x for x in cls.body if isinstance(x, FUNCS)]:
+            copy_propagate(m)
+    for node in ast.walk(tree):
+        for ch in ast.iter_child_nodes(node):
+            ch._parent = node
 
 
 class Ctx:
@@ -117,9 +272,9 @@ class Ctx:
         self._flow, self._loc = {}, {}
         for rel in (UROS, MSGS, EST):
             sf = self.fe.get(rel)
-            if sf is not None and not getattr(sf, "_guards_inlined", False):
-                inline_guard_helpers(sf.tree)
-                sf._guards_inlined = True
+            if sf is not None and not getattr(sf, "_helpers_normalised", False):
+                normalise_helpers(sf.tree)
+                sf._helpers_normalised = True
 
     def flow(self, fn):
         if id(fn) not in self._flow:
